@@ -1,6 +1,7 @@
 // Copyright (c) 2015-2017, RAPtor Developer Team
 // License: Simplified BSD, http://opensource.org/licenses/BSD-2-Clause
 
+#include <cfloat>
 #include "core/par_matrix.hpp"
 
 using namespace raptor;
@@ -80,7 +81,7 @@ ParCSRMatrix* classical_strength(ParCSRMatrix* A, double theta, bool tap_amg, in
             {
                 if (diag < 0.0)
                 {
-                    row_scale = -RAND_MAX; 
+                    row_scale = -DBL_MAX; 
                     for (int j = row_start_on; j < row_end_on; j++)
                     {
                         val = A->on_proc->vals[j];
@@ -100,7 +101,7 @@ ParCSRMatrix* classical_strength(ParCSRMatrix* A, double theta, bool tap_amg, in
                 }
                 else
                 {
-                    row_scale = RAND_MAX;
+                    row_scale = DBL_MAX;
                     for (int j = row_start_on; j < row_end_on; j++)
                     {
                         val = A->on_proc->vals[j];
@@ -123,7 +124,7 @@ ParCSRMatrix* classical_strength(ParCSRMatrix* A, double theta, bool tap_amg, in
             {
                 if (diag < 0.0)
                 {
-                    row_scale = -RAND_MAX; 
+                    row_scale = -DBL_MAX; 
                     for (int j = row_start_on; j < row_end_on; j++)
                     {
                         col = A->on_proc->idx2[j];
@@ -151,7 +152,7 @@ ParCSRMatrix* classical_strength(ParCSRMatrix* A, double theta, bool tap_amg, in
                 }
                 else
                 {
-                    row_scale = RAND_MAX;
+                    row_scale = DBL_MAX;
                     for (int j = row_start_on; j < row_end_on; j++)
                     {
                         col = A->on_proc->idx2[j];
@@ -409,7 +410,7 @@ ParCSRMatrix* symmetric_strength(ParCSRMatrix* A, double theta, bool tap_amg)
             if (diag < 0.0)
             {
                 neg_diags[i] = 1;
-                row_scale = -RAND_MAX; 
+                row_scale = -DBL_MAX; 
                 for (int j = row_start_on; j < row_end_on; j++)
                 {
                     val = A->on_proc->vals[j];
@@ -430,7 +431,7 @@ ParCSRMatrix* symmetric_strength(ParCSRMatrix* A, double theta, bool tap_amg)
             else
             {
                 neg_diags[i] = 0;
-                row_scale = RAND_MAX;
+                row_scale = DBL_MAX;
                 for (int j = row_start_on; j < row_end_on; j++)
                 {
                     val = A->on_proc->vals[j];
